@@ -137,6 +137,10 @@ package dagsync
 //@   at call withRecursionLimit#1: after ghost gdepth := arg1.depth
 //@   at call withRecursionLimit#1: after ghost gsel := result0
 //@   at call Sync#2: assert gdepth == nextDepth && arg3 == gsel
+// the stop block is never the root of a further segment (it would be fetched: the selector's stop
+// condition does not apply to the root of a traversal):
+//@   at call Sync#2: assert depthSoFar > 0 && stopAtCid != cid.Undef ==> arg2 != stopAtCid
+//@   loop 1: invariant depthSoFar > 0 && stopAtCid != cid.Undef ==> *segSync.nextSyncCid != stopAtCid
 //@   loop 1: invariant syncBySegment && segdl >= 1 && 1 <= nextDepth && nextDepth <= segdl && 0 <= depthSoFar
 //@   loop 1: invariant origLimit.mode == 1 ==> depthSoFar < origLimit.depth && nextDepth == min(segdl, origLimit.depth - depthSoFar) && origLimit.depth > segdl
 //@   loop 1: invariant origLimit.mode != 1 ==> nextDepth == segdl
